@@ -195,7 +195,8 @@ def c10(out):
     out.rule = ("case index enumerates (cipher, entry point of 5 + 3 Mantis, key length 0..3 blocks+16 then 7 huge values; Mantis: size 0..40+huge x rounds 0..20+huge) completely, then repeats with "
                 "fresh random key bytes; key buffer holds exactly the bytes a correct call may read and abuts a PROT_NONE page; stack painted before each call; oracle: accept/reject per documented range, "
                 "accepted => outputs equal those of the zero-padded primary-size key through the same entry point and those of the reference model, rejected => return 0, schedule fields untouched and "
-                "later outputs unchanged. CTR and parallel entry points on every back end. distinct = distinct (entry, length, key bytes).")
+                "later outputs unchanged (also after a later tweak change, against a twin object). CTR and parallel entry points on every back end. Huge lengths include values that wrap into the legal range when "
+                "scaled by 2..32 modulo 2^32. The three example tools are swept over every key length 1..max+3 for both block sizes with -k before and after -b. distinct = distinct (entry, length, key bytes).")
     out.exhaustive = False
     v = [("prod", n(out, 12000, 400000)), ("asan", n(out, 6000, 60000)), ("msan", n(out, 4000, 40000))]
     if out.tier == "thorough":
@@ -203,6 +204,8 @@ def c10(out):
     for vname, cases in v:
         exe = build_driver("drv_keys", ["drv_keys.c"] + HIST, vname)
         run_sharded(out, exe, ["--prop", "C10", "--mode", "c10"], vname, cases)
+    from . import c20 as tools_mod
+    tools_mod.key_length_sweep(out)
     out.observed["key_length_dimension_exhaustive"] = "lengths 0..3*block+16 for every entry point are enumerated in the first 2*5*(3*16+17+7)*4/3 cases of every variant"
     out.assumptions += ["exhaustive over the length dimension only; key bytes are sampled"]
 
